@@ -20,7 +20,7 @@ CLASSES = ('nonrec', 'linear', 'nonlinear', 'mixed', 'unitcycle')
 FORCED = ('edgeless-internal', 'edgeless-ext', 'edge-twice', 'nullary', 'no-edges-rule',
           'nt-without-rules', 'unreachable-nt', 'start-arity', 'zero-weight', 'inf-weight',
           'size1-domain', 'shared-factor', 'factor-twice-in-rule', 'jpre-shape', 'ext-also-attached-twice',
-          'many-rules', 'plain', 'unit-base')
+          'many-rules', 'plain', 'unit-base', 'pass-through-self-rule')
 
 
 def rng_for(*parts):
@@ -339,6 +339,15 @@ def gen_spec(rng, cls='nonrec', forced=(), max_nodes=5, max_edges=4, wdomain='re
         dead = make_rule(X, [U] + ([X] if rng.random() < 0.3 else []), n_term=1)
         first = next(i for i, r in enumerate(rules) if r['lhs'] == X)
         rules.insert(first, dead)
+    if 'pass-through-self-rule' in forced and cls != 'nonrec':
+        # X(v...) -> c(v0) X(v...): a nonterminal that recurses on itself while passing its nodes straight through, so
+        # its own Jacobian block is a diagonal matrix
+        cands = [n for n in names if nts[n] and n not in without_rules and any(r['lhs'] == n for r in rules)]
+        if cands:
+            X = rng.choice(cands)
+            t = f'f{len(spec["terminals"])}'
+            spec['terminals'][t] = [nts[X][0]]
+            rules.append(dict(lhs=X, nodes=list(nts[X]), ext=list(range(len(nts[X]))), edges=[[t, [0]], [X, list(range(len(nts[X])))]]))
     if 'unit-base' in forced:
         # every terminating rule becomes `X -> (its external nodes, no edge)`: weight exactly one, so the first
         # non-zero value of every nonterminal is exactly one (log-value exactly 0)
@@ -505,6 +514,8 @@ def features_of(spec, light=False):
         f.add('start-arity')
     if any(s == 1 for s in spec['domains'].values()):
         f.add('size1-domain')
+    if any(len(r['nodes']) == len(r['ext']) >= 1 and any(lab == r['lhs'] and list(att) == list(r['ext']) for lab, att in r['edges']) for r in spec['rules']):
+        f.add('pass-through-self-rule')
     term_rules = [r for r in spec['rules'] if not any(lab in nts for lab, _ in r['edges'])]
     if term_rules and all(not r['edges'] and len(r['nodes']) == len(r['ext']) for r in term_rules):
         f.add('unit-base')
